@@ -269,8 +269,15 @@ class Repo:
                     imported_new = normalize.new_module_constants(self.raw_tree("constants.py"), "constants.py", {})
                 except AnalysisError:
                     pass
+            # new methods of the model class, callable from the other modules through ``<x>._model.<name>(...)``
+            foreign = {}
+            if not rel.endswith("/model.py"):
+                try:
+                    foreign = normalize.new_methods(self.raw_tree("model.py"), "model.py", "_NumbersModel")
+                except Exception:  # noqa: BLE001
+                    foreign = {}
             try:
-                t, report = normalize.normalize_module(rel, self.source(rel), base_env, imported_new)
+                t, report = normalize.normalize_module(rel, self.source(rel), base_env, imported_new, foreign)
             except RecursionError as e:  # pragma: no cover
                 raise AnalysisError(f"normaliser failed on {rel}: {e}") from e
             set_parents(t)
